@@ -9,6 +9,7 @@ import (
 	"flag"
 	"fmt"
 	"os"
+	"time"
 
 	"github.com/LiskHQ/lisk-engine/pkg/blockchain"
 
@@ -38,6 +39,9 @@ type Hist struct {
 	N       int    `json:"n"`
 	Genesis string `json:"genesis"`
 	Steps   []Step `json:"steps"`
+	// two-node histories only
+	SyncTip  bool `json:"sync_reached_peer_tip,omitempty"`
+	SyncHang bool `json:"sync_hang,omitempty"`
 }
 
 type drv struct {
@@ -238,8 +242,137 @@ func (d *drv) fork() {
 	}
 }
 
+// syncViaProcess: two real nodes on loopback p2p. A and B share a prefix, each grows its own fork; B's tip is handed to A's
+// Executer.process as a block received from B: fork choice says "different chain", the real Syncer (fast sync) negotiates
+// the common block with B's real handlers, deletes A's fork, downloads and applies B's blocks through the processor
+// callback — all inside process, i.e. with the Executer's syncing flag set.  Every block step of the sync is observed:
+// the ABI double's InitStateMachine hook fires at the start of every processValidated / deleteBlock, where the state
+// left by the previous step is recorded.
+func syncViaProcess(r *hx.Rng, hi int) *Hist {
+	nv := 2 + r.Intn(3)
+	a, err := exh.New(exh.Options{N: nv, Listen: true})
+	if err != nil {
+		panic(err)
+	}
+	b, err := exh.New(exh.Options{N: nv, Listen: true, GenesisTime: a.Opt.GenesisTime})
+	if err != nil {
+		panic(err)
+	}
+	defer a.DB.Close()
+	defer b.DB.Close()
+	h := &Hist{K: "hist", N: nv, Genesis: hex.EncodeToString(a.Genesis.Header.ID)}
+	d := &drv{n: a, r: r, h: h, scripts: map[string]*exh.Script{}}
+	a.DrainEvents()
+	clone := func(x *blockchain.Block) *blockchain.Block {
+		c, err := blockchain.NewBlock(x.Encode())
+		if err != nil {
+			panic(err)
+		}
+		return c
+	}
+	// common prefix long enough for finality to advance with every further block
+	prefix := 2*nv + 2 + r.Intn(3)
+	for i := 0; i < prefix; i++ {
+		a.ABI.S = nil
+		blk := a.NextValid(exh.Build{})
+		s := &Step{Op: "apply", ID: hex.EncodeToString(blk.Header.ID), OK: true, P: d.postPrecommit(blk), What: "common prefix"}
+		res := a.ProcessValidated(blk, false)
+		s.Class = exh.ErrClass(res)
+		d.observe(s)
+		if rb := b.ProcessValidated(clone(blk), false); !rb.OK() {
+			panic("peer rejects prefix block")
+		}
+	}
+	own := 1 + r.Intn(2)
+	for i := 0; i < own; i++ {
+		blk := a.NextValid(exh.Build{})
+		s := &Step{Op: "apply", ID: hex.EncodeToString(blk.Header.ID), OK: true, P: d.postPrecommit(blk), What: "own fork"}
+		s.Class = exh.ErrClass(a.ProcessValidated(blk, false))
+		d.observe(s)
+	}
+	peerLen := own + 1 + r.Intn(nv)
+	for i := 0; i < peerLen; i++ {
+		skip := 0
+		if i == 0 {
+			skip = nv // same generator as A's first fork block, a later slot: a different block at the same height
+		}
+		if rb := b.ProcessValidated(b.NextValid(exh.Build{SkipSlots: skip}), false); !rb.OK() {
+			panic(fmt.Sprintf("peer fork block rejected: %v", rb.Err))
+		}
+	}
+	if err := a.StartNet(); err != nil {
+		panic(err)
+	}
+	defer a.StopNet()
+	if err := b.StartNet(); err != nil {
+		panic(err)
+	}
+	defer b.StopNet()
+	if err := a.ConnectTo(b); err != nil {
+		panic(err)
+	}
+	// probe at every step boundary inside the sync
+	var pending *Step
+	finish := func() {
+		if pending == nil {
+			return
+		}
+		if pending.Op == "apply" {
+			pending.OK = hex.EncodeToString(a.Tip().Header.ID) == pending.ID
+			if pending.OK {
+				pending.Class = "ok"
+			} else {
+				pending.Class = "rejected"
+			}
+		} else {
+			pending.Class = "ok"
+			if a.Tip().Header.Height >= pending.H {
+				pending.Class = "refused"
+				pending.OK = false
+			}
+		}
+		d.observe(pending)
+		pending = nil
+	}
+	a.ABI.S = nil
+	a.ABI.OnInit = func(hd *blockchain.BlockHeader) {
+		finish()
+		tip := a.Tip().Header
+		if hex.EncodeToString(tip.ID) == hex.EncodeToString(hd.ID) {
+			pending = &Step{Op: "delete", H: tip.Height, OK: true, What: "sync via Executer.process: delete till common block"}
+			return
+		}
+		blk := &blockchain.Block{Header: hd}
+		pending = &Step{Op: "apply", ID: hex.EncodeToString(hd.ID), P: d.postPrecommit(blk), OKImpl: true,
+			What: "sync via Executer.process: apply downloaded block (syncing flag set)"}
+	}
+	done := make(chan exh.Result, 1)
+	go func() { done <- a.ProcessFrom(clone(b.Tip()), b.Conn.Peer.ID()) }()
+	select {
+	case res := <-done:
+		a.ABI.OnInit = nil
+		finish()
+		s := &Step{Op: "cleartemp", OK: true, What: "sync via Executer.process returned: " + exh.ErrClass(res)}
+		d.observe(s)
+		h.SyncTip = hex.EncodeToString(a.Tip().Header.ID) == hex.EncodeToString(b.Tip().Header.ID)
+	case <-time.After(40 * time.Second):
+		a.ABI.OnInit = nil
+		h.SyncHang = true
+	}
+	// the first block processed after the sync
+	if !h.SyncHang {
+		blk := a.NextValid(exh.Build{})
+		s := &Step{Op: "apply", ID: hex.EncodeToString(blk.Header.ID), OK: true, P: d.postPrecommit(blk), What: "first block after the sync"}
+		s.Class = exh.ErrClass(a.Process(blk))
+		d.observe(s)
+	}
+	_ = hi
+	return h
+}
+
 func main() {
 	out := flag.String("out", "cases.jsonl", "output")
+	syncs := flag.Int("syncs", 2, "number of two-node histories whose sync is entered through Executer.process")
 	hists := flag.Int("hists", 12, "number of histories")
 	steps := flag.Int("steps", 30, "top-level steps per history")
 	flag.Parse()
@@ -253,6 +386,9 @@ func main() {
 			os.Exit(3)
 		}
 	}()
+	for si := 0; si < *syncs; si++ {
+		o.Put(syncViaProcess(r, si))
+	}
 	for hi := 0; hi < *hists; hi++ {
 		opt := exh.Options{N: 1 + r.Intn(5)}
 		if opt.N >= 2 && r.Bool() {
